@@ -16,9 +16,22 @@ inductive Thing
   | fileThing (filename : Option String) (obj : Nat) -- a FileThing passed through by a stacked call
 deriving DecidableEq, Repr
 
+/-- a value given as `filename=`: a str/bytes path or an os.PathLike (`none` = __fspath__()
+returned a non-path) -/
+inductive PathArg
+  | plain (p : String)
+  | pathLike (p : Option String)
+deriving DecidableEq, Repr
+
+/-- `__fspath__()` applied where the object has it -/
+def PathArg.fspath : PathArg → Except PyErr String
+  | .plain p => .ok p
+  | .pathLike (some p) => .ok p
+  | .pathLike none => .error .type_
+
 structure Args where
   filething : Thing := .none
-  filenameKw : Option String := none
+  filenameKw : Option PathArg := none
   fileobjKw : Option (Nat × Bool × Bool) := none     -- (id, readable, writable)
   instanceFilename : Option String := none           -- instance.filename (methods only)
   isMethod : Bool := true
@@ -41,16 +54,19 @@ def Plan.closes : Plan → Bool
 /-- `_openfile(instance, filething, filename, fileobj, writable, create)` up to the yield -/
 def resolve (a : Args) : Except PyErr Plan :=
   -- FileThing passes through; otherwise classify the positional argument
-  let (filename, fileobj) : Option String × Option (Nat × Bool × Bool) :=
+  let (filename, fileobj) : Option PathArg × Option (Nat × Bool × Bool) :=
     match a.filething with
-    | .fileThing fn obj => (fn, some (obj, true, true))
+    | .fileThing fn obj => (fn.map .plain, some (obj, true, true))
     | .none => (a.filenameKw, a.fileobjKw)
     | .fileobj id r w => (a.filenameKw, some (id, r, w))
-    | .pathLike (some p) => (some p, a.fileobjKw)
-    | .pathLike none => (none, none)     -- handled below as TypeError
-    | .path p => (some p, a.fileobjKw)
-  if a.filething = .pathLike none then .error .type_
-  else
+    | .pathLike p => (some (.pathLike p), a.fileobjKw)
+    | .path p => (some (.plain p), a.fileobjKw)
+  -- the name, positional or keyword, goes through __fspath__() when it has one
+  match (match filename with
+         | some pa => pa.fspath.map some
+         | none => .ok none : Except PyErr (Option String)) with
+  | .error e => .error e
+  | .ok filename =>
     -- a writable method call without a filename falls back to instance.filename
     let filename := match filename with
       | some f => some f
